@@ -6,6 +6,7 @@ import (
 	"fmt"
 	"math/big"
 	"math/rand/v2"
+	"sort"
 	"sync"
 
 	"github.com/onflow/crypto"
@@ -25,7 +26,7 @@ type c03Batch struct {
 	subset uint64
 }
 
-var c03Kinds = []string{"random-g1", "swapped-pair", "plus-minus-d", "three-way", "plus-T3", "malformed", "bad-length", "infinity-sig", "identity-key", "identity-key-infinity-sig", "mixture", "neighbour-key"}
+var c03Kinds = []string{"random-g1", "swapped-pair", "plus-minus-d", "three-way", "three-way-weighted", "plus-T3", "malformed", "bad-length", "infinity-sig", "identity-key", "identity-key-infinity-sig", "mixture", "neighbour-key"}
 
 // c03Build makes a batch of n valid entries and invalidates the positions in `bad` by `kind`.
 func c03Build(r *rand.Rand, n int, bad []int, kind string, h hash.Hasher, hn string) (*c03Batch, error) {
@@ -104,6 +105,22 @@ func c03Build(r *rand.Rand, n int, bad []int, kind string, h hash.Hasher, hn str
 		}
 		for ; j < len(bad); j++ {
 			inval(bad[j], "random-g1")
+		}
+	case "three-way-weighted":
+		// errors e_i, e_j, e_k at indices i<j<k with sum e = 0 AND sum index*e = 0: they cancel under
+		// any coefficient that is an affine function of the index (shared base, counters, ...)
+		sorted := append([]int{}, bad...)
+		sort.Ints(sorted)
+		j := 0
+		for ; j+2 < len(sorted); j += 3 {
+			i0, i1, i2 := sorted[j], sorted[j+1], sorted[j+2]
+			D := ref.E1.Mul(ref.G1Gen, randScalar(r))
+			b.sigs[i0] = ref.EncodeG1(ref.E1.Add(pts[i0], ref.E1.Mul(D, big.NewInt(int64(i2-i1)))))
+			b.sigs[i1] = ref.EncodeG1(ref.E1.Sub(pts[i1], ref.E1.Mul(D, big.NewInt(int64(i2-i0)))))
+			b.sigs[i2] = ref.EncodeG1(ref.E1.Add(pts[i2], ref.E1.Mul(D, big.NewInt(int64(i1-i0)))))
+		}
+		for ; j < len(sorted); j++ {
+			inval(sorted[j], "random-g1")
 		}
 	case "mixture":
 		base := []string{"random-g1", "plus-T3", "malformed", "bad-length", "infinity-sig", "identity-key", "neighbour-key"}
@@ -206,7 +223,7 @@ func C03(run *mon.Run) {
 			c03Check(run, b, "exhaustive")
 			run.Shape(fmt.Sprintf("%d|%d|%s", j.n, j.subset, j.kind))
 			run.Count("exhaustive.cases", 1)
-			if j.kind == "plus-minus-d" || j.kind == "three-way" || j.kind == "swapped-pair" {
+			if j.kind == "plus-minus-d" || j.kind == "three-way" || j.kind == "swapped-pair" || j.kind == "three-way-weighted" {
 				run.Count("cancellation.cases", 1)
 			}
 			if ji%997 == 0 {
